@@ -24,7 +24,7 @@ Also produce a demonstration: a standalone integration test file {wt}/yrs/tests/
 
 How to check your work:
   * existing suite: `cd {wt} && cargo test -p yrs --offline --lib 2>&1 | tail -15`  (takes ~5-6 minutes; on the UNMODIFIED tree exactly one test fails, `tests::compatibility_tests::test_medium_data_set`, because an input asset is empty in this sandbox - that failure is expected and does not count; every other test must pass with your change. Doc tests: `cargo test -p yrs --offline --doc` must pass too.)
-  * demo: `cd {wt} && cargo test -p yrs --offline --test seed_demo` must fail with the change and pass without it (use `git stash` / `git stash pop` on the source change, keeping the demo file, to show both).
+  * demo: `cd {wt} && cargo test -p yrs --offline --test seed_demo` must fail with the change and pass without it (to show both, save the source change with `git diff -- yrs/src yffi/src > my.patch`, undo it with `git apply -R my.patch`, and restore it with `git apply my.patch`; do NOT use `git stash` - the stash is shared with other worktrees of this repository that other people are using right now).
   * If your change is in yffi (the C API crate), say so; `cargo build -p yffi --offline` must succeed.
 
 Iterate until (a), (b) and (c) all hold; if a candidate change is caught by the existing tests, pick a subtler one. Prefer changes in the core mechanism the property depends on. Keep the change minimal (ideally 1-10 lines).
